@@ -143,6 +143,9 @@ def rand_script(rng, n, user):
             script.append(dict(a="CircGone", ev=ev))
         elif choice < 0.65:
             s = rng.choice(sids)
+            if s in zombie:
+                script.append(dict(a="LateClosed", ev=dict(id=s, st="CLOSED", circ=0, tgt=zombie.pop(s), src="")))
+                continue
             if s in ts:
                 continue
             ev = dict(id=s, st=rng.choice(["NEW", "NEW", "NEWRESOLVE"]), circ=0,
@@ -193,11 +196,14 @@ def rand_script(rng, n, user):
             del ts[s]
             live_s.discard(s)
             closing_s.discard(s)
-            script.append(dict(a="StreamGone", ev=ev))
+            z = ev["st"] == "FAILED" and rng.random() < 0.6       # Tor will also report it CLOSED
+            if z:
+                zombie[s] = ev["tgt"]
+            script.append(dict(a="StreamGone", z=z, ev=ev))
     return script
 
 
-closing_c, closing_s, failed_c, taddr = set(), set(), {}, {}
+closing_c, closing_s, failed_c, taddr, zombie = set(), set(), {}, {}, {}
 
 
 def strip(t):
@@ -205,7 +211,7 @@ def strip(t):
 
 
 def run(pid, tier, seed):
-    global closing_c, closing_s, failed_c, taddr
+    global closing_c, closing_s, failed_c, taddr, zombie
     rep = common.Report(pid, tier, seed)
     rep.assumptions = list(ASSUME)
     for name in (["MC_%s_quick" % pid] if tier == "quick" else ["MC_%s_quick" % pid, "MC_%s_thorough" % pid]):
@@ -225,7 +231,7 @@ def run(pid, tier, seed):
     rep.cov["tlc_generated_behaviours"] = len(sims)
     scripts = [("tlc", h) for h in sims]
     for i in range(200 if tier == "quick" else 2500):
-        closing_c, closing_s, failed_c, taddr = set(), set(), {}, {}
+        closing_c, closing_s, failed_c, taddr, zombie = set(), set(), {}, {}, {}
         scripts.append(("random", rand_script(rng, rng.choice([30, 80, 200]) if tier == "quick" else rng.choice([50, 200, 600]),
                                               user=(pid == "C08"))))
     traces, seen = [], set()
